@@ -57,9 +57,9 @@ PROPS = {
                        'endpoints_lgt', 'endpoints_ngt', 'endpoints_gt2')),
     'C16': P('lock split arithmetic and lock call arguments', eps=('claim',), cats=('bal', 'locks', 'status'), locks=True,
              views=('lockPct', 'unlockEpoch'), coq=('Proofs/Lock.v',), gentable=('const_max_pct_lock',)),
-    'C17': P('terms frozen: setters gated by stage / deposit, non-zero', eps=('setPrice', 'setTpt', 'setNftCost', 'setSchedule1', 'setSchedule2'),
+    'C17': P('terms frozen: setters gated by stage / deposit, non-zero', eps=('setPrice', 'setTpt', 'setNftCost', 'setSchedule1', 'setSchedule2', 'setConfStart', 'setWsStart', 'setClaimStart'),
              cats=('status',), views=('price', 'tpt', 'nftCost', 'schedule'), coq=('Proofs/Stage.v', 'Proofs/Terms.v')),
-    'C18': P('allocation: fresh consecutive ranges, no duplicates, v2 limits', eps=('addTickets',), cats=('status',),
+    'C18': P('allocation: fresh consecutive ranges, no duplicates, v2 limits', eps=('addTickets',), cats=('status', 'events'),
              views=('range', 'totalFor', 'totalTickets', 'utStatus'), coq=('Proofs/Alloc.v',),
              gentable=('const_max_allowance', 'const_max_entries', 'const_first_ticket_id')),
     'C19': P('pause blocks the gated endpoints and is transparent otherwise',
